@@ -200,3 +200,74 @@ func VerifC05_EditField() {
 		vrt.Assert(found, "C05.edit.marshal.others-unchanged")
 	}
 }
+
+func init() { vrt.Register("VerifC05_ClearChildren", VerifC05_ClearChildren) }
+
+// VerifC05_ClearChildren: after Load of a list<i32> / set<i32> / map<i32,i32> / struct of CNT children, any
+// subset of the children is cleared (ResetValue); Marshal yields the well-formed encoding of the remaining
+// children in order, with the element count rewritten.
+func VerifC05_ClearChildren() {
+	kind := vrt.Param("KIND") // 0 list, 1 set, 2 map, 3 struct
+	cnt := vrt.Param("CNT")
+	vals := make([]int, cnt)
+	keep := make([]bool, cnt)
+	for i := range vals {
+		vals[i] = int(int32(vrt.U32()))
+		keep[i] = vrt.Bool()
+	}
+	enc := func(all bool) []byte {
+		n := 0
+		for i := range vals {
+			if all || keep[i] {
+				n++
+			}
+		}
+		var b []byte
+		switch kind {
+		case 0, 1:
+			b = vrt.PutListHdr(b, vrt.TI32, n)
+		case 2:
+			b = vrt.PutMapHdr(b, vrt.TI32, vrt.TI32, n)
+		}
+		for i := range vals {
+			if !(all || keep[i]) {
+				continue
+			}
+			switch kind {
+			case 0, 1:
+				b = vrt.PutBE32(b, vals[i])
+			case 2:
+				b = vrt.PutBE32(vrt.PutBE32(b, 100+i), vals[i])
+			case 3:
+				b = vrt.PutBE32(vrt.PutField(b, vrt.TI32, 1+i), vals[i])
+			}
+		}
+		if kind == 3 {
+			b = append(b, 0)
+		}
+		return b
+	}
+	t := []byte{vrt.TLIST, vrt.TSET, vrt.TMAP, vrt.TSTRUCT}[kind]
+	src := enc(true)
+	opts := &Options{}
+	root := PathNode{Node: NewNode(thrift.Type(t), src)}
+	vrt.Assert(root.Load(false, opts) == nil, "C05.clear.load.noerror")
+	vrt.Assert(len(root.Next) == cnt, "C05.clear.children.count")
+	if len(root.Next) != cnt {
+		return
+	}
+	for i := range keep {
+		if !keep[i] {
+			root.Next[i].ResetValue()
+		}
+	}
+	out, err := root.Marshal(opts)
+	vrt.Assert(err == nil, "C05.clear.marshal.noerror")
+	if err != nil {
+		return
+	}
+	vrt.Reach("marshalled")
+	want := enc(false)
+	vrt.Assert(vrt.TWellFormed(out, t, 3), "C05.clear.marshal.wellformed")
+	vrt.Assert(vrt.BytesEq(out, 0, len(out), want, 0, len(want)), "C05.clear.marshal.remaining-children")
+}
